@@ -98,7 +98,17 @@ pub fn ev<T: Lane>(v: T) -> Value { v.encv() }
 pub fn evs<T: Lane>(v: &[T]) -> Value { Value::Array(v.iter().map(|x| x.encv()).collect()) }
 pub fn evm<T: Lane>(m: &[Vec<T>]) -> Value { Value::Array(m.iter().map(|r| evs(r)).collect()) }
 
+/// Zero patterns for structured operands: 0 dense, 1 diagonal, 2 upper triangular, 3 affine (last row 0..0 1),
+/// 4 a single non-zero row.  Products of structured operands take "fast paths" a dense operand never reaches.
+pub fn pattern<T: Lane>(p: u8, m: Vec<Vec<T>>) -> Vec<Vec<T>> {
+    let n = m.len();
+    (0..n).map(|i| (0..n).map(|j| {
+        let keep = match p { 1 => i == j, 2 => i <= j, 3 => i + 1 < n, 4 => i == 0, _ => true };
+        if keep { m[i][j] } else if p == 3 && i + 1 == n { T::from_i((j + 1 == n) as i64) } else { T::from_i(0) }
+    }).collect()).collect()
+}
 pub struct Drv {
+    pub pat: (u8, u8),
     pub out: TraceOut,
     pub rng: StdRng,
     pub inconclusive: u64,
@@ -108,7 +118,7 @@ pub struct Drv {
 impl Drv {
     pub fn new(path: &str, seed: u64) -> Drv {
         silence_panics();
-        Drv { out: TraceOut::create(path), rng: StdRng::seed_from_u64(seed), inconclusive: 0, panics: 0, per_op: Default::default() }
+        Drv { pat: (0, 0), out: TraceOut::create(path), rng: StdRng::seed_from_u64(seed), inconclusive: 0, panics: 0, per_op: Default::default() }
     }
     /// One call of the code under test.  `args` encodes the operands (a JSON object), `f` runs
     /// vek and encodes the projected result.  A panic of vek is data (`pan` = 1); a panic raised
